@@ -192,6 +192,11 @@ def parse_segments(text, version=None, encoding_chars=None, validation_level=Non
                         else:
                             current_parent.add(segment)
                         break
+            else:
+                if find_groups:
+                    # the segment is not part of the message structure (Z-segment, foreign or misplaced segment):
+                    # keep it at the top level instead of silently dropping it
+                    segments.append(parse_segment(s.strip(), version, encoding_chars, validation_level))
     return segments
 
 
